@@ -59,6 +59,8 @@ pub enum Entry {
 #[derive(Clone, Debug, Default)]
 pub struct World {
   pub entries: BTreeMap<String, Entry>,
+  /// answers under CacheSetting::Reload where they differ from `entries`
+  pub reload_entries: BTreeMap<String, Entry>,
 }
 
 pub fn render(src: &ModSrc, is_js: bool) -> String {
@@ -132,6 +134,23 @@ pub fn is_js_ext(spec: &str) -> bool {
 }
 
 impl World {
+  pub fn entry(&self, spec: &str, reload: bool) -> Option<&Entry> {
+    if reload {
+      if let Some(e) = self.reload_entries.get(spec) {
+        return Some(e);
+      }
+    }
+    self.entries.get(spec)
+  }
+  pub fn content_of(&self, spec: &str, reload: bool) -> Option<Vec<u8>> {
+    match self.entry(spec, reload)? {
+      Entry::Module { src, raw, .. } => Some(match raw {
+        Some(b) => b.clone(),
+        None => render(src, is_js_ext(spec)).into_bytes(),
+      }),
+      _ => None,
+    }
+  }
   pub fn content(&self, spec: &str) -> Option<Vec<u8>> {
     match self.entries.get(spec)? {
       Entry::Module { src, raw, .. } => Some(match raw {
@@ -146,6 +165,7 @@ impl World {
 /// Log of loader calls (specifier, cache setting, presented checksum, in_dynamic_branch).
 #[derive(Clone, Debug)]
 pub struct LoadCall {
+  pub reload: bool,
   pub asset: bool,
   pub specifier: String,
   pub cache_setting: &'static str,
@@ -164,12 +184,23 @@ impl<'a> WorldLoader<'a> {
     WorldLoader { world, log: RefCell::new(vec![]), max_redirects: 10 }
   }
   pub fn answer(&self, specifier: &ModuleSpecifier) -> LoadResult {
+    self.answer_with(specifier, false, None)
+  }
+  /// The loader's contract: content whose SHA-256 differs from the presented checksum is rejected.
+  pub fn answer_with(&self, specifier: &ModuleSpecifier, reload: bool, checksum: Option<&LoaderChecksum>) -> LoadResult {
+    let r = self.answer_raw(specifier, reload)?;
+    if let (Some(LoadResponse::Module { content, .. }), Some(c)) = (&r, checksum) {
+      c.check_source(content).map_err(LoadError::ChecksumIntegrity)?;
+    }
+    Ok(r)
+  }
+  fn answer_raw(&self, specifier: &ModuleSpecifier, reload: bool) -> LoadResult {
     if specifier.scheme() == "data" {
       return load_data_url(specifier).map_err(|e| {
         LoadError::Other(Arc::new(deno_error::JsErrorBox::generic(e.to_string())))
       });
     }
-    match self.world.entries.get(specifier.as_str()) {
+    match self.world.entry(specifier.as_str(), reload) {
       None | Some(Entry::Missing) => Ok(None),
       Some(Entry::Error) => Err(LoadError::Other(Arc::new(
         deno_error::JsErrorBox::generic("load failed"),
@@ -181,7 +212,7 @@ impl<'a> WorldLoader<'a> {
         specifier: ModuleSpecifier::parse(to).unwrap(),
       })),
       Some(Entry::Module { headers, .. }) => Ok(Some(LoadResponse::Module {
-        content: Arc::from(self.world.content(specifier.as_str()).unwrap()),
+        content: Arc::from(self.world.content_of(specifier.as_str(), reload).unwrap()),
         mtime: None,
         specifier: specifier.clone(),
         maybe_headers: headers
@@ -197,7 +228,9 @@ impl Loader for WorldLoader<'_> {
     self.max_redirects
   }
   fn ensure_cached(&self, specifier: &ModuleSpecifier, options: LoadOptions) -> EnsureCachedFuture {
+    let reload = options.cache_setting == CacheSetting::Reload;
     self.log.borrow_mut().push(LoadCall {
+      reload,
       asset: true,
       specifier: specifier.to_string(),
       cache_setting: options.cache_setting.as_js_str(),
@@ -205,7 +238,7 @@ impl Loader for WorldLoader<'_> {
       in_dynamic_branch: options.in_dynamic_branch,
     });
     // same mapping as the trait's default implementation
-    let r = self.answer(specifier).map(|v| {
+    let r = self.answer_with(specifier, reload, options.maybe_checksum.as_ref()).map(|v| {
       v.map(|r| match r {
         LoadResponse::Redirect { specifier } => CacheResponse::Redirect { specifier },
         LoadResponse::External { .. } | LoadResponse::Module { .. } => CacheResponse::Cached,
@@ -214,15 +247,46 @@ impl Loader for WorldLoader<'_> {
     async move { r }.boxed_local()
   }
   fn load(&self, specifier: &ModuleSpecifier, options: LoadOptions) -> LoadFuture {
+    let reload = options.cache_setting == CacheSetting::Reload;
     self.log.borrow_mut().push(LoadCall {
+      reload,
       asset: false,
       specifier: specifier.to_string(),
       cache_setting: options.cache_setting.as_js_str(),
       checksum: options.maybe_checksum.as_ref().map(|c| c.as_str().to_string()),
       in_dynamic_branch: options.in_dynamic_branch,
     });
-    let r = self.answer(specifier);
+    let r = self.answer_with(specifier, reload, options.maybe_checksum.as_ref());
     async move { r }.boxed_local()
+  }
+}
+
+/// A locker that logs what it is told.
+#[derive(Default)]
+pub struct LogLocker {
+  pub remote: HashMap<String, String>,
+  pub sets: Vec<(String, String)>,
+  pub pkg: HashMap<String, String>,
+  pub pkg_sets: Vec<(String, String)>,
+}
+
+impl Locker for LogLocker {
+  fn get_remote_checksum(&self, specifier: &ModuleSpecifier) -> Option<LoaderChecksum> {
+    self.remote.get(specifier.as_str()).map(|s| LoaderChecksum::new(s.clone()))
+  }
+  fn has_remote_checksum(&self, specifier: &ModuleSpecifier) -> bool {
+    self.remote.contains_key(specifier.as_str())
+  }
+  fn set_remote_checksum(&mut self, specifier: &ModuleSpecifier, checksum: LoaderChecksum) {
+    self.sets.push((specifier.to_string(), checksum.as_str().to_string()));
+    self.remote.insert(specifier.to_string(), checksum.into_string());
+  }
+  fn get_pkg_manifest_checksum(&self, nv: &deno_semver::package::PackageNv) -> Option<LoaderChecksum> {
+    self.pkg.get(&nv.to_string()).map(|s| LoaderChecksum::new(s.clone()))
+  }
+  fn set_pkg_manifest_checksum(&mut self, nv: &deno_semver::package::PackageNv, checksum: LoaderChecksum) {
+    self.pkg_sets.push((nv.to_string(), checksum.as_str().to_string()));
+    self.pkg.insert(nv.to_string(), checksum.into_string());
   }
 }
 
